@@ -61,6 +61,16 @@ def nHopAuxM (n : Nat) (A : M) : Nat → M × M
 /-- `calculate_n_hop_adj(n_hop = hops, include_self_loop = True)` on the materialised adjacency -/
 def nHopM (n : Nat) (A : BMat) (hops : Nat) : M := (nHopAuxM n (M.ofFn n A) (hops - 1)).1
 
+/-- entry `(i, j)` of `calculate_n_hop_adj(..., include_self_loop = sl)`: the Boolean reachability matrix `R` as 0/1,
+minus the identity when self loops are excluded (`return_adj - sp.eye(...)`) -/
+def nHopEntry (R : M) (sl : Bool) (i j : Nat) : Int :=
+  (if R.get i j then 1 else 0) - (if sl then 0 else if i = j then 1 else 0)
+
+/-- one more hop built on a PREVIOUS n-hop result given by its integer entries (`sp.csr_matrix(previous, dtype=bool).dot(adj)`):
+what a recursive formulation on the cached `(n-1)`-hop matrix computes -/
+def nHopExtend (n : Nat) (prev : Nat → Nat → Int) (A : BMat) : M :=
+  M.ofFn n (mul n (fun i j => decide (prev i j ≠ 0)) A)
+
 /-- entries of an `n × n` Boolean function, row-major -/
 def entries (n : Nat) (A : BMat) : List (Nat × Nat) :=
   (List.range n).flatMap fun i => (List.range n).filterMap fun j => if A i j then some (i, j) else none
@@ -81,5 +91,28 @@ def e2vNonzeros (n : Nat) (A : BMat) (selfLoop : Bool) : List (Nat × Nat) :=
   (List.range n).flatMap fun i => (List.range n).filterMap fun j =>
     if selfLoop then (if A i j then some (i, j) else none)
     else if (i ≠ j && A i j) || (i = j && !A i j) then some (i, j) else none
+
+/-! ### queries on a live object: a memo table in front of a pure function
+
+`lru_cache` in front of the graph methods, abstractly: a bounded association list from keys (the receiver and ALL option
+values) to results; a hit returns the stored value, a miss computes, stores in front and evicts beyond the capacity.
+`proj` is what the table is keyed on (`id` for the real code; a lossy `proj` models "keyed on option names, not values"). -/
+
+def memoLookup {κ' ν : Type} [DecidableEq κ'] (k : κ') : List (κ' × ν) → Option ν
+  | [] => none
+  | (k', v) :: t => if k' = k then some v else memoLookup k t
+
+/-- one query: (new table, answer) -/
+def memoQuery {κ κ' ν : Type} [DecidableEq κ'] (proj : κ → κ') (f : κ → ν) (cap : Nat)
+    (tbl : List (κ' × ν)) (k : κ) : List (κ' × ν) × ν :=
+  match memoLookup (proj k) tbl with
+  | some v => (tbl, v)
+  | none => (((proj k, f k) :: tbl).take cap, f k)
+
+/-- a history of queries on one table: the answers in order -/
+def memoRun {κ κ' ν : Type} [DecidableEq κ'] (proj : κ → κ') (f : κ → ν) (cap : Nat) :
+    List (κ' × ν) → List κ → List ν
+  | _, [] => []
+  | tbl, k :: ks => let r := memoQuery proj f cap tbl k; r.2 :: memoRun proj f cap r.1 ks
 
 end Femio.C13
